@@ -3,7 +3,10 @@ package main
 import (
 	"fmt"
 	"os"
+	"path/filepath"
 	"strings"
+
+	"github.com/safing/portbase/updater"
 
 	"github.com/safing/portbase/utils"
 	"verifharness/internal/vlib"
@@ -27,12 +30,14 @@ func runDirs(c *cctx) {
 		}
 	}
 	_ = os.WriteFile(c.sb.Root+"/afile", []byte("x"), 0o644)
+	freshBase := filepath.Join(c.sb.S, "fresh") // exists and is empty; roots that do not exist yet are placed below it
+	mustMkdir(freshBase)
 	c.sb.freeze()
 	g := &nameGen{Root: c.sb.Root, Targets: c.sb.Targets, Inside: []string{"tmp", "sub", "sub/deep", "afile"}, Suffix: c.sb.Suffixes, Embed: c.sb.Embed}
 	structs := []*utils.DirStructure{top, tmp, deep}
 	snames := []string{"top", "child", "grandchild"}
 
-	for _, nk := range c.names(g) {
+	for i, nk := range c.names(g) {
 		name := nk[0]
 		ch := c.choice(name)
 		si := ch.Intn(3)
@@ -87,5 +92,69 @@ func runDirs(c *cctx) {
 				c.b.Note("dirs: %s(%q) returned nil but %s is not a directory", op, name, ni.Target)
 			}
 		}
+		if ch.Chance(1, 5) || (i < 12 && len(c.sp.Names) == 0) {
+			c.freshRootCase(ch, freshBase, i, name, nk[1])
+		}
 	}
+}
+
+// freshRootCase: history instead of a hostile string. The structure's root does not
+// exist yet and 0-3 of its ancestors are missing as well; nothing is pre-created beyond
+// the chosen level. Whatever is requested (Ensure, a well-formed relative or absolute
+// path, a child's Ensure, the updater registry's Initialize on such a storage dir), the
+// ancestors of the root lie outside the root: creating them is a creation outside the
+// root, so the call has to fail without touching anything (or create only the root
+// when just the root is missing).
+func (c *cctx) freshRootCase(ch *vlib.Rand, freshBase string, i int, name, kind string) {
+	comp := "dirs"
+	levels := []string{fmt.Sprintf("case%d", i), vlib.Pick(ch, "opt", "var", "a"), vlib.Pick(ch, "data", "lib", "b")}
+	missing := ch.Intn(4) // ancestors of the root that do not exist
+	caseDir := filepath.Join(freshBase, levels[0])
+	root := filepath.Join(append([]string{freshBase}, append(levels, "root")...)...)
+	if pre := len(levels) - missing; pre > 0 {
+		mustMkdir(filepath.Join(append([]string{freshBase}, levels[:pre]...)...))
+	}
+	oldExcl := c.sb.excl
+	c.sb.excl = append(append([]string{}, oldExcl...), root)
+	c.sb.last = c.sb.snap()
+	perm := vlib.Pick(ch, os.FileMode(0o700), 0o750, 0o755)
+	ds := utils.NewDirStructure(root, perm)
+	rel := "sub"
+	if kind == "plain" {
+		rel = name
+	}
+	var op string
+	var call func() error
+	switch ch.Intn(6) {
+	case 0:
+		op, call = "Ensure", ds.Ensure
+	case 1:
+		op, call = "EnsureRelPath", func() error { return ds.EnsureRelPath(rel) }
+	case 2:
+		op, call = "EnsureAbsPath", func() error { return ds.EnsureAbsPath(root + "/" + rel) }
+	case 3:
+		op, call = "EnsureRelDir", func() error { return ds.EnsureRelDir(strings.Split(rel, "/")...) }
+	case 4:
+		op, call = "Ensure", ds.ChildDir("tmp", 0o700).Ensure
+	default:
+		op, call = "registry.Initialize", func() error { return (&updater.ResourceRegistry{Name: "c18fresh"}).Initialize(ds) }
+	}
+	ni := &nameInfo{Comp: comp, Name: rel, Kind: "fresh-root", Form: "freshroot=" + root, Arg: fmt.Sprintf("%d ancestor(s) of the root missing", missing),
+		Target: root, Class: "missing-root", Check: true}
+	c.b.Seen("kinds."+comp, ni.Kind)
+	c.b.Seen("fresh_root_missing_ancestors", fmt.Sprint(missing))
+	c.b.DistinctS(fmt.Sprintf("%s\x00fresh\x00%d\x00%s\x00%s", comp, missing, op, rel))
+	res := c.do(ni, op, func() (error, [][]byte) { return call(), nil })
+	c.b.Count("fresh_root_cases", 1)
+	if missing == 0 && op == "Ensure" {
+		// only the root itself was missing: creating it is the helper's job
+		c.b.Count("works_checked."+comp, 1)
+		if fi, err := os.Stat(root); !res.OK || err != nil || !fi.IsDir() {
+			c.b.Violation("C18:inside-broken:dirs.Ensure:missing-root", fmt.Sprintf("Ensure() did not create the missing root %s below its existing parent: %s %v", root, res.Err, err),
+				map[string]any{"comp": comp, "op": op, "root": root, "result": res})
+		}
+	}
+	_ = os.RemoveAll(caseDir)
+	c.sb.excl = oldExcl
+	c.sb.last = c.sb.snap()
 }
